@@ -638,6 +638,9 @@ func runReplayProcess(exe, path, variant string) int {
 	cmd := exec.Command(exe, "-test.run", "^TestNothing$")
 	cmd.Env = append(os.Environ(), "PQSIM_MODE=replay", "PQSIM_REPLAY="+path, "PQSIM_QUIET=1", "GORACE=halt_on_error=1 exitcode=66")
 	cmd.Env = append(cmd.Env, VariantEnv(variant)...)
+	if strings.HasSuffix(strings.TrimSuffix(path, ".json"), "-hang") {
+		cmd.Env = append(cmd.Env, "PQSIM_REPLAY_WALL=90s")
+	}
 	var buf strings.Builder
 	cmd.Stdout = &buf
 	cmd.Stderr = &buf
